@@ -62,6 +62,10 @@ type flowsCfg struct {
 	From     int    `json:"from,omitempty"`
 	To       int    `json:"to,omitempty"`
 	Codes    []int  `json:"codes,omitempty"`
+	// Twin (cooldown 0 only): a second flow, filter h.com/*, matches the same calls and carries the same Retry
+	// processor under the same processor key: two flows, two counters - each call is still retried at most the
+	// configured number of times, and both processors say the same
+	Twin bool `json:"second_flow_with_the_same_retry_processor_key,omitempty"`
 }
 
 type policyCfg struct {
@@ -237,6 +241,7 @@ func genFlowsCase() *rapid.Generator[tcase] {
 			f.Codes = rapid.SampledFrom([][]int{{500}, {500, 503}, {429, 502, 504}}).Draw(t, "codes")
 			statuses = append([]int{200, 501, 404}, f.Codes...)
 		}
+		f.Twin = f.Cooldown == 0 && rapid.IntRange(0, 2).Draw(t, "twin") == 0
 		c := tcase{Flows: f, Seqs: genSeqs(t)}
 		c.Steps = genSteps(t, len(c.Seqs), f.Attempts, statuses, f.inCond, true, nil)
 		for i := range c.Steps {
@@ -388,9 +393,11 @@ func (j *judge) observe(i int, e event, verdict string) string {
 
 // ---- flows mode runner -----------------------------------------------------------------
 
-func flowYAML(f flowsCfg) string {
+func flowYAML(f flowsCfg) string { return flowYAMLNamed(f, "rflow", "h.com/r") }
+
+func flowYAMLNamed(f flowsCfg, name, url string) string {
 	var b strings.Builder
-	b.WriteString("name: rflow\nfilter:\n  url: \"h.com/r\"\n")
+	fmt.Fprintf(&b, "name: %s\nfilter:\n  url: %q\n", name, url)
 	if f.Cond == "flow" {
 		parts := []string{}
 		for _, k := range f.Codes {
@@ -493,6 +500,9 @@ func retryTimers() map[int]bool {
 }
 
 // flowsVerdict reads the verdict of a completed response from the actions and the H2 events.
+// twinFlows: the case that is running has the second flow (set by runFlows)
+var twinFlows bool
+
 func flowsVerdict(res engine.Result, evs []engine.ProcEvent, inCond bool) (string, string) {
 	if res.Err != nil {
 		return "", fmt.Sprintf("ExecuteFlow error: %v", res.Err)
@@ -503,10 +513,22 @@ func flowsVerdict(res engine.Result, evs []engine.ProcEvent, inCond bool) (strin
 			nAct++
 		}
 	}
-	outs := []string{}
+	outs, twin := []string{}, []string{}
 	for _, e := range evs {
-		if e.Key == "Rt" {
+		if e.Key == "Rt" && e.Flow == "rflow2" {
+			twin = append(twin, e.Output)
+		} else if e.Key == "Rt" {
 			outs = append(outs, e.Output)
+		}
+	}
+	if twinFlows {
+		// the second flow's processor has seen the same responses with the same settings: it says the same, and
+		// every `retry` of it is one more retry action on the response
+		if fmt.Sprint(twin) != fmt.Sprint(outs) {
+			return "", fmt.Sprintf("two flows carry the same Retry processor: the first one's says %v, the second one's %v for the same response", outs, twin)
+		}
+		if len(twin) == 1 && twin[0] == "retry" {
+			nAct--
 		}
 	}
 	if len(outs) > 1 {
@@ -548,6 +570,12 @@ func loadFlows(c tcase) (*streams.Stream, *engine.Dir, error) {
 		dir.Remove()
 		return nil, nil, infraErr{e.Error()}
 	}
+	if c.Flows.Twin {
+		if e := dir.WriteFlow("r2.yaml", flowYAMLNamed(*c.Flows, "rflow2", "h.com/*")); e != nil {
+			dir.Remove()
+			return nil, nil, infraErr{e.Error()}
+		}
+	}
 	s, e := dir.Load()
 	if e != nil {
 		dir.Remove()
@@ -563,6 +591,11 @@ func runFlows(r *ev.Recorder, rec *engine.Recorder, c tcase) (bool, string, erro
 		return false, "", err
 	}
 	defer dir.Remove()
+	twinFlows = c.Flows.Twin
+	defer func() { twinFlows = false }()
+	if twinFlows {
+		r.Class("two flows with the same Retry processor key match the call")
+	}
 	j := newJudge(r, c)
 	parked := map[string]*inflight{}
 	order := []string{}
@@ -575,6 +608,21 @@ func runFlows(r *ev.Recorder, rec *engine.Recorder, c tcase) (bool, string, erro
 				v, bad := flowsVerdict(res, rec.Take(), inCond)
 				return v, bad, nil
 			default:
+			}
+			if twinFlows {
+				// the second flow's Retry processor cools down after the first one's: its timer belongs to this
+				// response too (the timers of responses that stay parked are left alone)
+				for tid := range retryTimers() {
+					mine := tid != p.timer
+					for _, q := range parked {
+						if q.timer == tid {
+							mine = false
+						}
+					}
+					if mine {
+						gclk.Fire(tid)
+					}
+				}
 			}
 			if e := w.spin("a response released from its cool-down did not complete"); e != nil {
 				return "", "", e
